@@ -13,7 +13,11 @@ import NanoVerif.Gen.MutableState
     * `tune_writes_disjoint`         the (trial, fold) tasks of `ml::tune` write disjoint element ranges of `m_values`, distinct
                                      `m_extras` slots, inside the buffer, and read only slots no task of the batch writes (C13 + C16);
     * `sum_reduce_assignment_independent`, `min_reduce_assignment_independent`   the reductions do not depend on which worker
-                                     processed which chunk, in which order (exact arithmetic; unique best feature for `min`);
+                                     processed which chunk (exact arithmetic; `min`: every worker processes its features in
+                                     increasing index order, ties allowed — the tie-break of commit 62472c9;
+                                     `table_min_reduce_assignment_independent`: the table learners' lexicographic caches of
+                                     commit 5de0896 need no order hypothesis at all;
+                                     `old_min_reduce_schedule_dependent`: the rule before it was schedule dependent);
     * `minimize_is_pure`             with per-call clones of the line-search prototypes, what a `minimize` call computes depends on
                                      (solver object, its own arguments) only — not on the calls it is interleaved with;
     * `mutable_state_allowlisted`    every `mutable` member, non-const static and pointer/reference member found in the CURRENT
@@ -129,37 +133,143 @@ theorem sum_reduce_schedules_agree {M : Type} [AddCommMonoid M] (divN : M → Na
   rw [sum_reduce_assignment_independent divN n sched'.flatten sched hw hperm,
     sum_reduce_assignment_independent divN n sched'.flatten sched' hw' (List.Perm.refl _)]
 
-/-- `min_reduce` over the per-worker "first best" caches. `feats` = the candidate lists of the features (a feature's
-    candidates — thresholds, … — come in the fixed order of its sweep). Hypothesis: the minimal score is attained by ONE
-    feature only — `fstar = P ++ x :: Q`, `x` its first candidate with that score (`P` strictly above, `Q` not below), and
-    every candidate of every other feature scores strictly above `x`. Then for EVERY schedule (`sched` : per worker, the
-    features it processed, in its order; any distribution of the features over any number of workers) the fit selects `x`. -/
-theorem min_reduce_assignment_independent {α π : Type} [LinearOrder α] (x : Cand α π) (P Q : List (Cand α π))
-    (F1 F2 : List (List (Cand α π)))
-    (hP : ∀ y ∈ P, x.score < y.score) (hQ : ∀ y ∈ Q, x.score ≤ y.score)
-    (hothers : ∀ f ∈ F1 ++ F2, ∀ y ∈ f, x.score < y.score)
-    (sched : List (List (List (Cand α π))))
-    (hperm : sched.flatten.Perm (F1 ++ (P ++ x :: Q) :: F2)) :
-    mapMinReduce (sched.map List.flatten) = some (some x) := by
-  exact mapMinReduce_feature x P Q F1 F2 hP hQ hothers sched hperm
+/-- `min_reduce_feature` over the per-worker "first best" caches (reduce.h, commit 62472c9). `feats` = the features the fit
+    loops over, in increasing index order, each with its candidates (thresholds, … in the fixed order of its sweep; every
+    candidate carries its feature's index: `candsOf`). `sched` = per worker, the features it processed, in its order.
+    Hypotheses: at least one worker (`caches` has `concurrency() ≥ 1` slots); every feature is processed by exactly one worker
+    (`hperm`: the pool's contract, C17); every worker processed ITS features in increasing index order (`SchedSorted`, a
+    decidable predicate — what `pool_t::map` produces for one loop over one feature list). NO hypothesis on the scores: exact
+    ties between features, between thresholds of one feature, everywhere, are allowed. Then for EVERY such schedule — any
+    number of workers, any distribution of the features over them — the fit selects
+      * exactly the candidate ONE worker processing all features in index order selects (`cacheOf (stream feats)`), and
+      * that candidate has the minimal score, and the smallest feature index among the candidates with the minimal score
+        (the lexicographic minimum of (score, feature index); within its feature: the first candidate of the sweep with
+        that score, by the first clause); no candidate at all iff no feature has a candidate. -/
+theorem min_reduce_assignment_independent {α π : Type} [LinearOrder α] (feats : List (Feat α π))
+    (hf : (feats.map Prod.fst).Pairwise (· < ·))
+    (sched : List (List (Feat α π))) (hne : sched ≠ []) (hperm : sched.flatten.Perm feats) (hs : SchedSorted sched) :
+    mapMinReduce (sched.map stream) = some (cacheOf (stream feats)) ∧
+    (match cacheOf (stream feats) with
+     | none => stream feats = []
+     | some x => x ∈ stream feats ∧
+        ∀ y ∈ stream feats, x.score ≤ y.score ∧ (y.score = x.score → x.feature ≤ y.feature)) := by
+  obtain ⟨r, hr, hbest⟩ := mapMinReduce_sorted feats hf sched hne hperm hs
+  obtain ⟨_, hseq⟩ := mapMinReduce_seq feats hf
+  have heq : r = cacheOf (stream feats) := best_unique _ _ _ hbest hseq
+  subst heq
+  refine ⟨hr, ?_⟩
+  cases hc : cacheOf (stream feats) with
+  | none => exact (cacheOf_spec (stream feats)).1.mp hc
+  | some x =>
+    rw [hc] at hbest
+    exact best_reps_lexmin feats x hbest
 
-/-- the tie case (DESIGN.md §6 item 5, KNOWN_FINDINGS `feature-tie:schedule-dependent-selection`): without the uniqueness
-    hypothesis the selected candidate DOES depend on the schedule — two copies of a feature with equal scores, processed by
-    different workers: the cache of the lower worker id wins, whichever copy it processed. -/
+/-- two index-sorted schedules of the same features select the same candidate -/
+theorem min_reduce_schedules_agree {α π : Type} [LinearOrder α] (feats : List (Feat α π))
+    (hf : (feats.map Prod.fst).Pairwise (· < ·)) (sched sched' : List (List (Feat α π)))
+    (hne : sched ≠ []) (hne' : sched' ≠ []) (hperm : sched.flatten.Perm feats) (hperm' : sched'.flatten.Perm feats)
+    (hs : SchedSorted sched) (hs' : SchedSorted sched') :
+    mapMinReduce (sched.map stream) = mapMinReduce (sched'.map stream) := by
+  rw [(min_reduce_assignment_independent feats hf sched hne hperm hs).1,
+    (min_reduce_assignment_independent feats hf sched' hne' hperm' hs').1]
+
+/-- The TABLE learners (dense, k-best, k-split, discrete-step): since commit 5de0896 their per-worker caches use the same
+    lexicographic test as `min_reduce_feature` (`updLex`), because a table fit runs two loops (single-label, then multi-label
+    features) into the same caches and a worker may see feature indices out of order. NO hypothesis on the order inside a worker
+    and none on the scores: `feats` = the features in any order with pairwise distinct indices, `sched` = ANY distribution of
+    them over ≥ 1 workers, each worker processing its features in ANY order. The fit selects exactly what one worker processing
+    `feats` in the given order selects, and that is the lexicographic minimum of (score, feature index) (within its feature: the
+    first candidate of the sweep with that score). -/
+theorem table_min_reduce_assignment_independent {α π : Type} [LinearOrder α] (feats : List (Feat α π))
+    (hf : (feats.map Prod.fst).Nodup)
+    (sched : List (List (Feat α π))) (hne : sched ≠ []) (hperm : sched.flatten.Perm feats) :
+    mapMinReduceLex (sched.map stream) = some (cacheOfLex (stream feats)) ∧
+    (match cacheOfLex (stream feats) with
+     | none => stream feats = []
+     | some x => x ∈ stream feats ∧
+        ∀ y ∈ stream feats, x.score ≤ y.score ∧ (y.score = x.score → x.feature ≤ y.feature)) := by
+  obtain ⟨r, hr, hbest⟩ := mapMinReduceLex_any feats hf sched hne hperm
+  obtain ⟨r', hr', hbest'⟩ := mapMinReduceLex_any feats hf [feats] (by simp) (by simp)
+  have hseq : r' = cacheOfLex (stream feats) := by
+    have : mapMinReduceLex ([feats].map stream) = some (cacheOfLex (stream feats)) := rfl
+    rw [this] at hr'
+    exact (Option.some.inj hr').symm
+  have heq : r = cacheOfLex (stream feats) := by rw [← hseq]; exact best_unique _ _ _ hbest hbest'
+  subst heq
+  refine ⟨hr, ?_⟩
+  cases hc : cacheOfLex (stream feats) with
+  | none =>
+    rw [hc] at hbest
+    have h0 : reps feats = [] := hbest
+    -- no per-feature best: no candidate at all
+    apply List.eq_nil_iff_forall_not_mem.mpr
+    intro y hy
+    unfold stream at hy
+    obtain ⟨g, hg, hyg⟩ := List.mem_flatMap.mp hy
+    cases hb : rep g with
+    | none =>
+      have : candsOf g = [] := (cacheOf_spec (candsOf g)).1.mp hb
+      rw [this] at hyg
+      simp at hyg
+    | some b =>
+      have : b ∈ reps feats := (mem_reps feats b).mpr ⟨g, hg, hb⟩
+      rw [h0] at this
+      simp at this
+  | some x =>
+    rw [hc] at hbest
+    exact best_reps_lexmin feats x hbest
+
+/-- non-vacuity for the table variant: the worker that holds the tying features 3 and 0 sees them in DEcreasing order (the two
+    loops of table.cpp on a dataset whose multi-label features have the smaller indices); every schedule gives feature 0 — while
+    the first-seen cache of before 5de0896 (`mapMinReduce`) gives 3 or 0 depending on the schedule -/
 example :
-    let a : Cand Nat String := ⟨5, "feature 0"⟩
-    let b : Cand Nat String := ⟨5, "feature 2 (copy of 0)"⟩
-    (mapMinReduce [[a], [b]]).map (Option.map (·.payload)) = some (some "feature 0") ∧
-    (mapMinReduce [[b], [a]]).map (Option.map (·.payload)) = some (some "feature 2 (copy of 0)") := by
+    let m0 : Feat Nat String := (0, [(2, "m0")])
+    let m1 : Feat Nat String := (1, [(7, "m1")])
+    let s0 : Feat Nat String := (2, [(8, "s0")])
+    let s1 : Feat Nat String := (3, [(2, "s1")])
+    (([s0, s1, m0, m1] : List (Feat Nat String)).map Prod.fst).Nodup ∧
+    (mapMinReduceLex ([[s0, s1, m0, m1]].map stream)).map (Option.map (·.feature)) = some (some 0) ∧
+    (mapMinReduceLex ([[s1, m0], [s0, m1]].map stream)).map (Option.map (·.feature)) = some (some 0) ∧
+    (mapMinReduceLex ([[s0, m1], [s1, m0]].map stream)).map (Option.map (·.feature)) = some (some 0) ∧
+    (mapMinReduce ([[s0, s1, m0, m1]].map stream)).map (Option.map (·.feature)) = some (some 3) ∧
+    (mapMinReduce ([[s1, m0], [s0, m1]].map stream)).map (Option.map (·.feature)) = some (some 3) ∧
+    (mapMinReduce ([[s1, m1], [s0, m0]].map stream)).map (Option.map (·.feature)) = some (some 0) := by
   decide
 
-/-- … while with a unique best feature the answer is the same for these two (and, by the theorem, all) schedules -/
+/-- The rule BEFORE commit 62472c9 (`min_reduce`: `m_score` only, `mapMinReduceOld`) is schedule dependent under an exact
+    tie, on index-sorted schedules: features 0 and 2 tie on the minimal score 5 and are processed by different workers —
+    the cache of the lower worker id wins, whichever feature it holds. (DESIGN.md §6, KNOWN_FINDINGS
+    `feature-tie:schedule-dependent-selection`, fixed.) So the theorem above is about the tie-break. -/
+theorem old_min_reduce_schedule_dependent :
+    ∃ (feats : List (Feat Nat String)) (sched sched' : List (List (Feat Nat String))),
+      (feats.map Prod.fst).Pairwise (· < ·) ∧ sched.flatten.Perm feats ∧ sched'.flatten.Perm feats ∧
+      SchedSorted sched ∧ SchedSorted sched' ∧
+      mapMinReduceOld (sched.map stream) ≠ mapMinReduceOld (sched'.map stream) ∧
+      mapMinReduce (sched.map stream) = mapMinReduce (sched'.map stream) := by
+  refine ⟨[(0, [(5, "a")]), (1, [(7, "b")]), (2, [(5, "c")])],
+    [[(0, [(5, "a")]), (1, [(7, "b")])], [(2, [(5, "c")])]],
+    [[(2, [(5, "c")])], [(0, [(5, "a")]), (1, [(7, "b")])]], by decide, by decide, by decide, by decide, by decide, by decide,
+    by decide⟩
+
+/-- non-vacuity of the hypotheses, with an exact tie spread over two workers: features 0 and 2 both score 5 (feature 2 even
+    twice, two thresholds); three index-sorted schedules, all select (5, feature 0) — also the one whose first worker holds
+    feature 2 -/
 example :
-    let a : Cand Nat String := ⟨4, "feature 0"⟩
-    let b : Cand Nat String := ⟨5, "feature 2"⟩
-    (mapMinReduce [[a], [b]]).map (Option.map (·.payload)) = some (some "feature 0") ∧
-    (mapMinReduce [[b], [a]]).map (Option.map (·.payload)) = some (some "feature 0") ∧
-    (mapMinReduce [[b, a], []]).map (Option.map (·.payload)) = some (some "feature 0") := by
+    let f0 : Feat Nat String := (0, [(9, "t0"), (5, "t1")])
+    let f1 : Feat Nat String := (1, [(7, "u0")])
+    let f2 : Feat Nat String := (2, [(5, "v0"), (5, "v1")])
+    (([f0, f1, f2] : List (Feat Nat String)).map Prod.fst).Pairwise (· < ·) ∧
+    SchedSorted [[f0, f1], [f2]] ∧ SchedSorted [[f2], [f0, f1]] ∧ SchedSorted [[f1, f2], [], [f0]] ∧
+    ¬ SchedSorted [[f2, f0], [f1]] ∧
+    (mapMinReduce ([[f0, f1], [f2]].map stream)).map (Option.map fun c => (c.score, c.feature, c.payload))
+      = some (some (5, 0, "t1")) ∧
+    (mapMinReduce ([[f2], [f0, f1]].map stream)).map (Option.map fun c => (c.score, c.feature, c.payload))
+      = some (some (5, 0, "t1")) ∧
+    (mapMinReduce ([[f1, f2], [], [f0]].map stream)).map (Option.map fun c => (c.score, c.feature, c.payload))
+      = some (some (5, 0, "t1")) ∧
+    -- a worker that does NOT process its features in index order keeps the first one it saw: the hypothesis is needed
+    (mapMinReduce ([[f2, f0], [f1]].map stream)).map (Option.map fun c => (c.score, c.feature, c.payload))
+      = some (some (5, 2, "v0")) := by
   decide
 
 example : mapSumReduce (· + ·) 0 (fun (v : Int) n => v / n) 2 [[1, 2], [], [3, 4]] = some 5 ∧
